@@ -10,6 +10,8 @@
   *non-commuting* mixed pairs (irrational spectra).  On those the check runs the direct oracle only.
 -/
 import GraphiqModel.Proofs.DMSem
+import GraphiqModel.Proofs.C17Bridge
+import GraphiqModel.Proofs.C17BridgeUhlmann
 namespace Graphiq.C17
 open Graphiq Graphiq.DM
 
@@ -109,6 +111,17 @@ theorem commuting_trace_distance_is_metric {p q r : ι → ℝ} (hp : IsProb p) 
 theorem commuting_fuchs_van_de_graaf {p q : ι → ℝ} (hp : IsProb p) (hq : IsProb q) :
     1 - Real.sqrt (F p q) ≤ T p q ∧ T p q ≤ Real.sqrt (1 - F p q) := fuchs_van_de_graaf hp hq
 
+/-- **The closed forms *are* the Uhlmann fidelity and the trace distance on commuting pairs** (any dimension): for
+    `ρ = U diag(p) U†`, `σ = U diag(q) U†` with `U` unitary and `p, q ≥ 0`, the Uhlmann fidelity `(tr √(√ρ σ √ρ))²` and the
+    trace distance `½ tr √((ρ−σ)†(ρ−σ))` — `√` the positive semidefinite square root of Mathlib (`CFC.sqrt`) — equal
+    `F p q = (Σ √(p_i q_i))²` and `T p q = ½ Σ |p_i − q_i|`.  (Formerly cited as textbook mathematics.)  Together with the
+    three theorems above: on commuting pairs fidelity and trace distance have every property asked of them. -/
+theorem commuting_closed_forms_are_uhlmann_and_trace_distance [DecidableEq ι] (U : Matrix ι ι ℂ)
+    (hU : U.conjTranspose * U = 1) (p q : ι → ℝ) (hp : ∀ i, 0 ≤ p i) (hq : ∀ i, 0 ≤ q i) :
+    C17B.uhlmann (C17B.conjDiag U p) (C17B.conjDiag U q) = ((F p q : ℝ) : ℂ) ∧
+    C17B.traceDist (C17B.conjDiag U p) (C17B.conjDiag U q) = ((T p q : ℝ) : ℂ) :=
+  ⟨C17B.uhlmann_commuting U hU p q hp hq, C17B.traceDist_commuting U hU p q⟩
+
 /-- the rational numbers the driver computes for a commuting pair (`dm.comm`) are these real quantities:
     eigenvalues `a_i²`, `b_i²` with `a_i, b_i ≥ 0` rational -/
 theorem model_closed_forms_are_F_and_T (d : Nat) (a b : Fin d → Rat) (ha : ∀ i, 0 ≤ a i) (hb : ∀ i, 0 ≤ b i) :
@@ -134,17 +147,93 @@ def fidelity_and_trace_distance_statement (uhlmann tdist : Mat → Mat → ℝ) 
 
 /-! ## (iv) `Infidelity` across representations -/
 
-/-- **Partial** (hypotheses = the facts "ρ(T) is a pure density matrix" and "the overlap lies in [0,1]", which hold for every
-    valid tableau by the cited tensor-lifting argument and are evaluated by the driver on every correspondence input; the
-    sign hypothesis is the region outside known finding D9).  With them, `Infidelity` returns the same value whether target
-    and state are held as tableaux, both as matrices, or target as matrix and state as tableau. -/
-theorem infidelity_representation_independent_partial (tt ts : Tab)
+/-- conditional form, as proved before the bridge to the Hilbert-space model existed: the four hypotheses `hdt hds hp hov` are
+    now theorems (`stabilizer_density_is_pure_density_matrix`, `stab_overlap_in_unit_interval`); see
+    `infidelity_representation_independent` -/
+theorem infidelity_representation_independent_of_facts (tt ts : Tab)
     (hsign : ∀ k, k < ts.n → (ts.row (k + ts.n)).r = false)
     (hdt : isDensityMatrix (stabilizerDensity tt) = true) (hds : isDensityMatrix (stabilizerDensity ts) = true)
     (hp : isPure (stabilizerDensity tt) = true) (hov : 0 ≤ stabOverlap tt ts ∧ stabOverlap tt ts ≤ 1) :
     infidelity stabOverlap (.dm (stabilizerDensity tt)) (.dm (stabilizerDensity ts)) = infidelity stabOverlap (.s tt) (.s ts) ∧
     infidelity stabOverlap (.dm (stabilizerDensity tt)) (.s ts) = infidelity stabOverlap (.s tt) (.s ts) :=
   infidelity_rep_independent tt ts hsign hdt hds hp hov
+
+/-- **The exact matrix of a stabilizer state is a pure density matrix for the code's own tests** (every n, every valid
+    Clifford tableau): `stabilizerDensity t = ∏_k (I + (−1)^{r_k} g_k)/2`, computed in ℚ[i] as the Python computes it in
+    floating point, passes `is_density_matrix` (Hermitian, positive semidefinite by the exact `LDL†` test, trace 1) and
+    `is_pure` (`tr ρ² = 1`).  Proof: the matrix *represents* (`Hilbert.Rep`, Proofs/HilbertBridge*.lean) the Mathlib matrix
+    `Hilbert.rho`, which is a Hermitian projector of trace 1 (C07); the exact PSD test accepts every representation of a
+    positive semidefinite matrix (`C17B.psdElim_complete`: leading entry real ≥ 0, zero pivot ⇒ zero row, Schur
+    complement PSD). -/
+theorem stabilizer_density_is_pure_density_matrix (t : Tab) (hv : t.isSymplectic = true) :
+    isDensityMatrix (stabilizerDensity t) = true ∧ isPure (stabilizerDensity t) = true :=
+  have hv' := (Tab.isSymplectic_iff t).1 hv
+  ⟨C17B.stabilizerDensity_isDensityMatrix t hv', C17B.stabilizerDensity_isPure t hv'⟩
+
+open scoped ComplexOrder in
+/-- **The model's `is_psd` decides positive semidefiniteness** (every size `2^n`): an exact matrix over ℚ[i] that represents
+    the complex matrix `M` (`Hilbert.Rep`: same entries, basis strings ↔ indices) passes the Hermitian check plus the symmetric
+    `LDL†` elimination **iff** `M` is Hermitian positive semidefinite (Mathlib's `Matrix.PosSemidef`).  Completeness
+    (`psdElim_complete`): leading entry real ≥ 0, a zero pivot forces a zero row, the Schur complement is PSD.  Soundness
+    (`psdElim_sound`): completing the square, `Q(v) = d·|v_k + S/d|² + Q'(v)`.  The code's `is_psd` runs a floating-point
+    Cholesky of `ρ + 1e-15·I`; this is the property that call approximates. -/
+theorem exact_psd_test_correct {n : Nat} (m : Mat) (M : Hilbert.DMat n) (hm : Hilbert.Rep n m M) :
+    isPsd m = true ↔ M.PosSemidef :=
+  C17B.isPsd_rep_iff hm
+
+/-- **`stabOverlap` — the specification of the stabilizer fidelity used in this file — is the value C05's model of
+    `inner_product` reports** (every n): `tr(ρ_a ρ_b)` computed in ℚ[i] equals 0 when `inner_product` returns 0 and `2^{-e}`
+    when it returns `2^{-e/2}`. -/
+theorem stab_overlap_is_stabilizer_fidelity (a b : Tab) (r : Option Nat) (ga : (STab.ofTab a).Good)
+    (gb : (STab.ofTab b).Good) (h : STab.innerProduct a b = .ok r) :
+    stabOverlap a b = (match r with | none => 0 | some e => (1 / 2 : Rat) ^ e) := by
+  rw [C17B.stabOverlap_eq a b r ga gb h]
+  cases r <;> rfl
+
+/-- the overlap of two valid tableaux of equal size lies in `[0,1]` -/
+theorem stab_overlap_in_unit_interval (a b : Tab) (ha : a.isSymplectic = true) (hb : b.isSymplectic = true)
+    (hn : a.n = b.n) : 0 ≤ stabOverlap a b ∧ stabOverlap a b ≤ 1 :=
+  C17B.stabOverlap_range a b ((Tab.isSymplectic_iff a).1 ha) ((Tab.isSymplectic_iff b).1 hb) hn
+
+/-- **The two backends compute the same fidelity on stabilizer states** (every n): the density-matrix `fidelity` of the two
+    exact matrices takes its pure-state branch and returns exactly `tr(ρ_a ρ_b)` — no clipping occurs — which is the value
+    of the stabilizer backend's `fidelity`. -/
+theorem dm_fidelity_of_stabilizer_states (a b : Tab) (ha : a.isSymplectic = true) (hb : b.isSymplectic = true)
+    (hn : a.n = b.n) :
+    fidelity (stabilizerDensity a) (stabilizerDensity b) = .ok (.val (stabOverlap a b)) := by
+  have da := stabilizer_density_is_pure_density_matrix a ha
+  have db := stabilizer_density_is_pure_density_matrix b hb
+  rw [fidelity_pure_branch _ _ da.1 db.1 (Or.inl da.2)]
+  have := stab_overlap_in_unit_interval a b ha hb hn
+  show Except.ok (FidOut.val (clip01 (stabOverlap a b))) = _
+  rw [clip01_id _ this.1 this.2]
+
+/-- **… and that value is `|⟨ψ_a|ψ_b⟩|²`** (every n, valid tableaux of equal size): there are unit vectors `ψ_a`, `ψ_b` with
+    `ρ_a = |ψ_a⟩⟨ψ_a|`, `ρ_b = |ψ_b⟩⟨ψ_b|` (`Hilbert.tabRho` is the complex matrix that `stabilizerDensity` represents) whose
+    squared inner product is the exact rational overlap — the quantity both backends return as the fidelity. -/
+theorem stabilizer_fidelity_is_squared_inner_product (a b : Tab) (ha : a.isSymplectic = true) (hb : b.isSymplectic = true)
+    (hn : a.n = b.n) :
+    ∃ ψa ψb : Hilbert.Bits a.n → ℂ,
+      (∑ x, star (ψa x) * ψa x = 1) ∧ (∑ x, star (ψb x) * ψb x = 1) ∧
+      (∀ x y, Hilbert.tabRho a.n a x y = ψa x * star (ψa y)) ∧ (∀ x y, Hilbert.tabRho a.n b x y = ψb x * star (ψb y)) ∧
+      ((stabOverlap a b : Rat) : ℂ) = (∑ x, star (ψa x) * ψb x) * star (∑ x, star (ψa x) * ψb x) :=
+  C17B.stabOverlap_inner a b ((Tab.isSymplectic_iff a).1 ha) ((Tab.isSymplectic_iff b).1 hb) hn
+
+/-- **`Infidelity` agrees across representations** (every n, all valid tableaux of equal size): it returns the same value
+    whether target and state are held as tableaux or both as matrices — unconditionally — and also with the target as a
+    matrix and the state as a tableau **provided the state's generators carry no sign** (the region outside known finding
+    D9: `_stabilizer_to_density_pure` ignores the sign vector, `d9_sign_vector_ignored`). -/
+theorem infidelity_representation_independent (tt ts : Tab) (hn : tt.n = ts.n) (hvt : tt.isSymplectic = true)
+    (hvs : ts.isSymplectic = true) :
+    infidelity stabOverlap (.dm (stabilizerDensity tt)) (.dm (stabilizerDensity ts)) = infidelity stabOverlap (.s tt) (.s ts) ∧
+    ((∀ k, k < ts.n → (ts.row (k + ts.n)).r = false) →
+      infidelity stabOverlap (.dm (stabilizerDensity tt)) (.s ts) = infidelity stabOverlap (.s tt) (.s ts)) := by
+  have f := dm_fidelity_of_stabilizer_states tt ts hvt hvs hn
+  constructor
+  · simp only [infidelity, f, Except.map]
+  · intro hsign
+    have e := stabilizerToDensityPure_eq ts hsign
+    simp only [infidelity, e, f, Except.map]
 
 /-- the full statement (no sign hypothesis) — **false for the code as it stands**, see `d9_sign_vector_ignored` -/
 def infidelity_representation_independent_statement : Prop :=
@@ -163,7 +252,9 @@ theorem d9_sign_vector_ignored :
     infidelity stabOverlap (.s (Tab.ket0 1)) (.s (Tab.ket1 1)) = .ok (.val 1) ∧
     infidelity stabOverlap (.dm ket0dm) (.dm (stabilizerDensity (Tab.ket1 1))) = .ok (.val 1) := d9_witness
 
-/-- non-vacuity of the partial theorem: a Bell-type tableau (stabilizers `XX`, `ZZ`, no signs) meets its hypotheses -/
+/-- non-vacuity: a Bell-type tableau (stabilizers `XX`, `ZZ`, no signs) is valid (hypotheses of
+    `infidelity_representation_independent`, `stabilizer_density_is_pure_density_matrix`, `dm_fidelity_of_stabilizer_states`); the
+    evaluation agrees with the theorems -/
 def bellTab : Tab :=
   Tab.ofRows 2 #[
     PRow.ofArrays #[false,false] #[true,false] false false,
@@ -172,5 +263,7 @@ def bellTab : Tab :=
     PRow.ofArrays #[false,false] #[true,true] false false]
 example : isDensityMatrix (stabilizerDensity bellTab) = true ∧ isPure (stabilizerDensity bellTab) = true ∧
     stabOverlap bellTab bellTab = 1 ∧ stabOverlap bellTab (Tab.ket0 2) = 1/2 := by decide +kernel
+example : bellTab.isSymplectic = true ∧ (Tab.ket0 2).isSymplectic = true ∧ bellTab.n = (Tab.ket0 2).n ∧
+    ∀ k, k < (Tab.ket0 2).n → ((Tab.ket0 2).row (k + (Tab.ket0 2).n)).r = false := by decide
 
 end Graphiq.C17
